@@ -35,6 +35,7 @@ type ModItem struct {
 }
 
 type FuncContract struct {
+	Arch     string // "" | "amd64" | "!amd64"
 	Pkg      string // package dir key: ".", "z", "z/simd"
 	Recv     string // receiver type name without * and type args ("" for functions)
 	Name     string
@@ -44,6 +45,7 @@ type FuncContract struct {
 	LoopInv  map[int][]*Clause
 	LoopDec  map[int]*Clause
 	LoopMod  map[int][]*ModItem
+	LabelInv map[string][]*Clause
 	Modifies []*ModItem
 	Attrs    map[string]string // trusted, inline, pure, atomic, constructor, holds, ...
 	Ghost    []*GhostStmt
@@ -136,6 +138,7 @@ func parseContractFile(pkg, path string) (*ContractFile, error) {
 	cf := &ContractFile{Pkg: pkg, Path: path}
 	var cur *FuncContract
 	var lastLemma *Lemma
+	curArch := ""
 	// join continuation lines: a line `//@ .. text` continues the previous one
 	type ln struct {
 		s string
@@ -165,6 +168,11 @@ func parseContractFile(pkg, path string) (*ContractFile, error) {
 			return fmt.Errorf("%s:%d: %s", path, l.n, fmt.Sprintf(f, a...))
 		}
 		switch word {
+		case "arch":
+			curArch = rest
+			if rest == "any" {
+				curArch = ""
+			}
 		case "import":
 			cf.Imports = append(cf.Imports, rest)
 		case "decl":
@@ -237,7 +245,7 @@ func parseContractFile(pkg, path string) (*ContractFile, error) {
 				return nil, errf("bad func header %q", t)
 			}
 			lastLemma = nil
-			cur = &FuncContract{Pkg: pkg, Recv: m[3], Name: m[5], Header: t, LoopInv: map[int][]*Clause{},
+			cur = &FuncContract{Arch: curArch, Pkg: pkg, Recv: m[3], Name: m[5], Header: t, LoopInv: map[int][]*Clause{}, LabelInv: map[string][]*Clause{},
 				LoopDec: map[int]*Clause{}, LoopMod: map[int][]*ModItem{}, Attrs: map[string]string{}, Line: l.n, File: path}
 			cf.Funcs = append(cf.Funcs, cur)
 		case "requires", "ensures":
@@ -283,6 +291,18 @@ func parseContractFile(pkg, path string) (*ContractFile, error) {
 			default:
 				return nil, errf("bad loop clause kind %q", f[1])
 			}
+		case "label":
+			// label <name> invariant [tags] expr   (assembly functions)
+			if cur == nil {
+				return nil, errf("label outside func")
+			}
+			f := strings.Fields(rest)
+			if len(f) < 3 || f[1] != "invariant" {
+				return nil, errf("bad label clause")
+			}
+			body := strings.TrimSpace(strings.TrimPrefix(strings.TrimSpace(rest[len(f[0]):]), "invariant"))
+			tags, label, e := parseTags(body)
+			cur.LabelInv[f[0]] = append(cur.LabelInv[f[0]], &Clause{Kind: "invariant", Tags: tags, Label: label, Expr: e, Line: l.n})
 		case "ghost":
 			// ghost <anchor>: stmt
 			if cur == nil {
@@ -293,7 +313,7 @@ func parseContractFile(pkg, path string) (*ContractFile, error) {
 				return nil, errf("bad ghost")
 			}
 			cur.Ghost = append(cur.Ghost, &GhostStmt{Anchor: strings.TrimSpace(rest[:colon]), Stmt: strings.TrimSpace(rest[colon+1:])})
-		case "reveal", "uses":
+		case "reveal", "uses", "hide":
 			var items []string
 			for _, it := range strings.Split(rest, ",") {
 				if it = strings.TrimSpace(it); it != "" {
@@ -306,6 +326,7 @@ func parseContractFile(pkg, path string) (*ContractFile, error) {
 				}
 				if word == "reveal" {
 					lastLemma.Reveal = append(lastLemma.Reveal, items...)
+				} else if word == "hide" {
 				} else {
 					lastLemma.Uses = append(lastLemma.Uses, items...)
 				}
@@ -316,7 +337,7 @@ func parseContractFile(pkg, path string) (*ContractFile, error) {
 			} else {
 				cur.Attrs[word] = strings.Join(items, ",")
 			}
-		case "trusted", "inline", "pure", "atomic", "constructor", "nopanic", "holds", "noframe", "unfold", "callback", "bind", "yields", "assume_entry", "thread":
+		case "trusted", "inline", "pure", "atomic", "constructor", "nopanic", "holds", "noframe", "unfold", "callback", "bind", "yields", "assume_entry", "thread", "asm", "property":
 			if cur == nil {
 				return nil, errf("%s outside func", word)
 			}
